@@ -57,7 +57,16 @@ func c12Build(in c12Input) ([]mockq.Rec, refmodel.Expr) {
 	case 2:
 		r = &refmodel.Bin{Op: "-", L: r, R: &refmodel.Lit{V: 1}}
 	}
+	total := func(side string) refmodel.Expr {
+		return &refmodel.VecAgg{Op: "sum", X: &refmodel.RangeAgg{Op: "count_over_time", Sel: []refmodel.Matcher{{Label: "side", Op: "=", Value: side}}, RangeNS: 10 * sec}}
+	}
 	switch in.Kind {
+	case "nv": // one series with the empty label set on each side, produced in two different ways
+		return data, &refmodel.Bin{Op: in.Op, L: total("L"), R: &refmodel.Vec{V: in.S}}
+	case "vn":
+		return data, &refmodel.Bin{Op: in.Op, L: &refmodel.Vec{V: in.S}, R: total("R")}
+	case "nan": // x/0 is NaN: comparisons with NaN never hold
+		return data, &refmodel.Bin{Op: in.Op, L: &refmodel.Bin{Op: "/", L: l, R: &refmodel.Lit{V: 0}}, R: &refmodel.Lit{V: in.S}}
 	case "vs":
 		return data, &refmodel.Bin{Op: in.Op, L: l, R: &refmodel.Lit{V: in.S}}
 	case "sv":
@@ -128,6 +137,22 @@ func c12Run(r *vkit.Run) {
 									nontrivial = true
 								}
 							}
+						}
+					}
+				}
+				for _, op := range all {
+					for _, s := range []float64{0, 2} {
+						for _, kind := range []string{"nv", "vn"} {
+							if c12Check(r, c12Input{L: l, R: rr, Op: op, Kind: kind, S: s, Range: rg}) {
+								nontrivial = true
+							}
+						}
+					}
+				}
+				for _, op := range []string{"==", "!=", ">", ">=", "<", "<="} {
+					for _, s := range []float64{0, 1} {
+						if c12Check(r, c12Input{L: l, R: rr, Op: op, Kind: "nan", S: s, Range: rg}) {
+							nontrivial = true
 						}
 					}
 				}
